@@ -258,22 +258,25 @@ def generateGoal (po : POps) (f : Nat) (toParse : Text) : Res Goal :=
 
 /-! ### `parse_rule` (`rule.rs`) -/
 
-def indexOfNeck : Text → Nat → Bool → Option Nat
-  | [], _, _ => none
-  | ch :: rest, i, prevColon =>
-    if ch == '-' && prevColon then some (i - 1)
-    else indexOfNeck rest (i + 1) (ch == ':')
+def indexOfNeck : Text → Nat → Bool → Bool → Option Nat
+  | [], _, _, _ => none
+  | ch :: rest, i, prevColon, inQuotes =>
+    -- (repair D25) ":-" between double quotes is text
+    if ch == '"' then indexOfNeck rest (i + 1) false (!inQuotes)
+    else if inQuotes then indexOfNeck rest (i + 1) false true
+    else if ch == '-' && prevColon then some (i - 1)
+    else indexOfNeck rest (i + 1) (ch == ':') false
 
 def parseRule (po : POps) (f : Nat) (toParse : Text) : Res Rule :=
   let s := trim toParse
   if s.isEmpty then .fail
   else
     let chrs := if s.getLast? == some '.' then s.dropLast else s
-    match indexOfNeck chrs 0 false with
+    match indexOfNeck chrs 0 false false with
     | some index =>
       (slice chrs 0 index).bind fun headChrs =>
         (slice chrs (index + 2) chrs.length).bind fun bodyChrs =>
-          if (indexOfNeck bodyChrs 0 false).isSome then .fail
+          if (indexOfNeck bodyChrs 0 false false).isSome then .fail
           else
             (parseSubgoal po f headChrs).bind fun sg =>
               match sg with
